@@ -77,6 +77,6 @@ Lemma repaired_witness_ok :
   snap s 12 0 = Some (v1, 11) /\ snap s 18 0 = Some (v2, 18) /\ snap s 12 1 = Some (v1, 12) /\ snap s 18 1 = None.
 Proof.
   split.
-  - unfold repaired_witness. cbn [labels_ok]. repeat split; vm_compute; try reflexivity; exact I.
+  - apply labels_okb_spec. vm_compute. reflexivity.
   - vm_compute. repeat split; reflexivity.
 Qed.
